@@ -76,8 +76,20 @@ JOBS["C12"] = [
 ]
 
 JOBS["C06"] = [
+    H("knownreplay", "dkgnet", "^TestC06KnownFindingReplay$", {"shards": 1, "checks": 1, "timeout": 900}),
     H("firstdkg", "dkgnet", "^TestC06FirstDKG$", {"shards": 8, "checks": 5, "timeout": 1500}, {"shards": 14, "checks": 120, "timeout": 3400}),
     H("reshare", "dkgnet", "^TestC06Reshare$", {"shards": 8, "checks": 5, "timeout": 1500}, {"shards": 14, "checks": 120, "timeout": 3400}),
+]
+
+JOBS["C09"] = [
+    H("knownreplay", "dkgnet", "^TestC09KnownFindingReplay$", {"shards": 1, "checks": 1, "timeout": 300}),
+    H("proposal", "dkgnet", "^TestC09Proposal$", {"shards": 6, "checks": 60, "timeout": 1200}, {"shards": 14, "checks": 800, "timeout": 3400}),
+    H("followups", "dkgnet", "^TestC09FollowUps$", {"shards": 6, "checks": 50, "timeout": 1200}, {"shards": 14, "checks": 700, "timeout": 3400}),
+]
+
+JOBS["C08"] = [
+    H("knownreplay", "dkgnet", "^TestC08KnownFindingReplay$", {"shards": 1, "checks": 1, "timeout": 600}),
+    H("machine", "dkgnet", "^TestC08StateMachine$", {"shards": 10, "checks": 8, "timeout": 1500}, {"shards": 14, "checks": 150, "timeout": 3400, "steps": 60}),
 ]
 
 LEVELS = {"C13": "fault_enumeration"}
@@ -86,6 +98,18 @@ _MACHINE = ("rapid state machine over a network of real beacon handlers: scheme 
             "actions: tick, sub-period advance, burst of 2-6 periods, advance of a subset (skew/stall), realign, partition/heal, queue mode with generated delivery order and drops, duplicate mode, stop/restart (same or fresh store), "
             "forged partial injection (12 kinds incl. valid-for-clock+k), scripted lying sync peer (13 kinds), sync-stream tap. ")
 RULES = {
+    "C08": "rapid state machine over 5 real dkg.Process instances with real bolt dkg.db files (all Fresh, or 3 of them holding a completed epoch 1 written by the harness), ~30 steps (thorough 60): valid proposals built from the live membership "
+           "(first epoch or reshare with drawn leavers/joiners/threshold), operator commands on arbitrary nodes (accept, reject, join with the right / no / a garbage group file, execute, abort), commands the protocol must refuse (threshold below minimum / above n, "
+           "expired timeout, dropping a current member, unknown scheme), proposals signed with the real leader key but stale epoch / epoch+2 / bad threshold / expired / changed genesis time or seed / foreign beacon id delivered to every node, and in 1/3 of the cases "
+           "real executions to completion (reaching epoch 2-3). Oracle after every step on every node: (from,to) of the current record is in the harness's own transition relation (terminal states leave through the last finished record; an execution may take 3 steps), "
+           "a command refused by validation leaves both records byte-identical, the current epoch never decreases, the finished record only changes to a Complete record with group+share of a strictly larger epoch, every invalid proposal class is refused by every node able to "
+           "detect it, and after an abort a valid proposal is accepted and stored by all recipients. Non-trivial: history with accepted and rejected steps that starts from a completed epoch or reaches epoch>=2 or retries after abort; distinct by full history.",
+    "C09": "a resharing about to happen on real dkg.Process instances: 4-member epoch 1 (written by the harness), optional leaver, one joiner, one outsider key; the pristine packet of each type (proposal, accept, reject, execute, abort) is produced by "
+           "the real sender and captured on the bus. Per case one victim (member / joiner / leaver / leader) and one derived packet: every single-field mutation of the terms (epoch, threshold, timeout, periods, scheme, genesis time/seed, beacon id, "
+           "leader, participant address / key / signature, list membership and order) and of the metadata (address, beacon id, signature bits/length) keeping the signature; the same content re-signed by another member, the leaver, the joiner or an outsider "
+           "while claiming the real sender; the leader's key replaced by the attacker's in the lists with the attacker signing; entitlement cases (member sends the leader's proposal / execute / abort in its own name, accept / reject for somebody else, by the joiner, by the leaver). "
+           "Oracle: Packet returns an error, the victim's current+finished records are byte-identical (TOML), nothing is re-gossiped; afterwards the pristine packet is accepted by the same victim (anti-vacuity, and a replica of the signed message is "
+           "validated against the pristine signature in every case). Non-trivial: every case; distinct by packet type, victim, forgery and key seed.",
     "C06": "real dkg.Process instances (real bolt dkg.db each) on an in-memory DKGClient bus. first DKG: scheme in 5, n in 1..7 (n=1 must be refused cleanly), t in [n/2+1,n], drawn permutation of the participant list handed to the leader, drawn leader, "
            "beacon period in {1,3,30} s. reshare: on top of a completed epoch written by the harness (its own polynomial): n0 in 2..6, 0..n0-t0 leavers, 0..3 joiners, new threshold in range, every list permuted, leader among the remainers. "
            "Delivery policy per case: per-message delay up to 5/40/150 ms (reordering), duplicates, one slow node (all its traffic +100/400/900 ms), transient failure of gossip sends (retried by the sender); message loss of DKG bundles is not generated "
@@ -149,6 +173,8 @@ RULES = {
 }
 
 ASSUMPTIONS = {
+    "C08": ["time-outs (TimedOut state) are not generated: the code has no path into that state besides the operator", "after a partial completion (some nodes finished, some not) the model stops following the history", "nodes in state Left are not proposed again (listed known finding)"],
+    "C09": ["a fresh joiner may trust member keys supplied in the packet (as the statement allows): those forgeries are recorded as exempt", "the signed-message replica in the harness is validated against the code under test in every case"],
     "C06": ["kyber's Pedersen DKG is sound under reliable (possibly slow, reordering, duplicating) delivery", "DKG randomness comes from crypto/rand: cases are reproducible in structure, not in key bytes", "phase timeout 2 s, kick-off grace 250 ms (real time)"],
     "C12": ["consumer stalls are modelled at SyncStream.Send (HTTP/2 flow control and grpc.MaxConcurrentStreams not involved)", "appends are paced so that a consumer that keeps up is at most 20 rounds behind (a beacon chain appends once per period)", "process RSS not measured; bounds are on the cache structures"],
     "C11": ["streams are driven at the SyncChain/SyncStream interface (gRPC transport not involved)", "for the ring back-end the generator does not evict a round a scanning stream has not sent yet (it no longer exists)"],
